@@ -273,3 +273,16 @@ CLAIMS["C11"] = {
     "technique": "static analysis: dispatch-table extraction + finite-group inverse check, emit/apply mirror pairing per block, "
                  "vocabulary inclusion, row-operation ownership lint",
 }
+
+CLAIMS["C03"] = {
+    "text": "Narrow claim: decides only structural necessary conditions — each photon is absorbed (hence emitted) exactly once on "
+            "every path of the main loop and of _add_photon_absorption, with a single call site of the emission helper in the "
+            "package; the emitter budget is max(height_func_list(rref(tableau))), used for the circuit, and no register is added "
+            "afterwards; height_func_list re-reduces its input to echelon gauge and has the linear normal form "
+            "n-(k+1)-#{leftmost>k}. Does not decide that the height function equals the bipartite entropy, full gauge "
+            "independence, or minimality.",
+    "ref": "DESIGN.md §5.3",
+    "note": "Trusted: rref, leftmost_nontrivial_index.",
+    "technique": "static analysis: exactly-once path counting, who-may-call, symbolic inlining of straight-line provenance, "
+                 "linear normal forms",
+}
